@@ -50,7 +50,7 @@ def make_config(prop, rng, tier):
         cfg.update({
             "cls": rng.choice(["monoidal", "monoidal", "monoidal", "rigid_plain", "tensor"]),
             "max_steps": rng.choice([20, 35, 50]),
-            "nboxes": rng.choice([2, 3, 4, 4, 5, 5, 6, 6, 7, 8]),
+            "nboxes": rng.choice([0, 1, 2, 3, 4, 4, 5, 5, 6, 6, 7, 8]),
             "maxw": rng.choice([3, 4, 5, 6]), "atoms": rng.randint(1, 2),
             "p_degenerate": rng.choice([0.0, 0.2, 0.5, 0.9]),
             "p_samename": rng.choice([0.0, 0.25, 0.6]),
@@ -923,9 +923,11 @@ class Driver:
             if fault.random() < cfg["p_interrupt"]:
                 op["interrupt_at"] = self.interrupt_at(5000)
             return op
-        if r < 0.83:
+        if r < 0.82:
             return {"op": "subs", "src": src, "dst": src if sched.random() < 0.5 else self.fresh_slot(),
                     "value": sched.choice([0, 1, 2])}
+        if r < 0.83:
+            return {"op": "dagger", "src": src, "dst": self.fresh_slot()}      # a new lineage
         if r < 0.86 and len(names) >= 2:
             return {"op": "canon", "slots": names[:6], "left": sched.random() < 0.5}
         if r < 0.93:
